@@ -454,6 +454,10 @@ impl Family for C08 {
         out
     }
 
+    fn long_running(s: &S08) -> bool {
+        s.giant.is_some()
+    }
+
     fn rule() -> &'static str {
         "one case = (endianness, source reader {buffered u8..u64, unbuffered} over a strict or zero-extended memory image of one of 5 patterns, destination writer word u8..u128 over a recording sink, history: 0-4 source ops incl. peeks and gamma-table reads, 0-3 destination writes, usually a peek, a copy (copy_to or copy_from, n among 0, 1..8, reader W-1/W/W+1, writer W-1/W/W+1, 63/64/65, 2W-1/2W/2W+1, 2*writerW+1, 129, random <=300), then 1-14 continuation ops: reads, peeks, unary, table reads, writes, flushes, further copies; final flush). distinct_nontrivial = distinct (endianness, reader, writer word, direction, measured source buffer fill, free bits in the destination buffer, n) copy signatures plus reader-op signatures after 0/1/2+ copies Scale scenarios: one run in 200-400 has several hundred operations or a zero run / unary part / copy / skip / slice above 2^16 bits; one run in 100 000 (sim/src/giant.rs) has a copy (copy_to or copy_from) of more than 2^32 bits from a sparse zero-run source to a sparse recording sink. A quarter of the copies goes through the traits' DEFAULT copy_to / copy_from (a pass-through wrapper around the reader / the writer, standing for a user-defined stream)."
     }
